@@ -27,6 +27,7 @@ func DerivedAddress(creator crypto.Address, seq uint64) crypto.Address {
 	return crypto.NewContractAddress(creator, nonce)
 }
 
+var createFactory = crypto.Address{0xfa, 0xc7, 0x00, 0x00, 0x00, 0x00, 0x00, 0x00, 0x00, 0x00, 0x00, 0x00, 0x00, 0x00, 0x00, 0x00, 0x00, 0x00, 0x00, 0x02}
 var createChild = crypto.Address{0xc1, 0x1d, 0x00, 0x00, 0x00, 0x00, 0x00, 0x00, 0x00, 0x00, 0x00, 0x00, 0x00, 0x00, 0x00, 0x00, 0x00, 0x00, 0x00, 0x01}
 
 func GenCreate(id int64) *VMCase {
@@ -51,7 +52,15 @@ func GenCreate(id int64) *VMCase {
 		// SSTORE(0,1); INVALID
 		{"invalid", []byte{0x60, 0x01, 0x60, 0x00, 0x55, 0xfe}, false, "", 0},
 	}
+	// ORIGIN -> slot 1, CALLER -> slot 2, then runtime "00": what the constructor sees of the call context
+	kinds = append(kinds, initKind{"okCtx", []byte{0x32, 0x60, 0x01, 0x55, 0x33, 0x60, 0x02, 0x55,
+		0x60, 0x01, 0x60, 0x14, 0x60, 0x00, 0x39, 0x60, 0x01, 0x60, 0x00, 0xf3, 0x00}, true, "00", 0})
 	k := kinds[r.Intn(len(kinds))]
+	if r.Intn(3) == 0 {
+		k = kinds[len(kinds)-1]
+	}
+	// nested: the transaction calls an outer contract, which calls the factory (the factory's caller is not the origin)
+	nested := r.Intn(2) == 0
 	callFirst := r.Intn(2) == 0
 	value := []uint64{0, 0, 5, 100}[r.Intn(4)]
 	c.CalleeBal = 100
@@ -91,6 +100,26 @@ func GenCreate(id int64) *VMCase {
 	a.labels[tail] = len(a.code) // the init code follows the factory's own code
 	a.op(k.code...)
 	c.Code = a.bytes()
+	factoryAddr := VMCallee
+	if nested {
+		factoryAddr = createFactory
+		c.Extra = append(c.Extra, VMAccount{Addr: createFactory, Code: c.Code, Balance: 100})
+		c.CalleeBal = 0
+		// outer: CALL(gas, factory, 0, 0, 0, ret 0, 0x40); POP; RETURN(0, 0x40)
+		o := newAsm()
+		o.pushU(0x40)
+		o.pushU(0)
+		o.pushU(0)
+		o.pushU(0)
+		o.pushU(0)
+		o.pushN(20, new(big.Int).SetBytes(createFactory.Bytes()))
+		o.op(0x5a) // GAS
+		o.op(0xf1, 0x50)
+		o.pushU(0x40)
+		o.pushU(0)
+		o.op(0xf3)
+		c.Code = o.bytes()
+	}
 	if callFirst {
 		// child: MSTORE(0, 0xff..ff); RETURN(0, 32)
 		child := append([]byte{0x7f}, make([]byte, 32)...)
@@ -100,16 +129,22 @@ func GenCreate(id int64) *VMCase {
 		child = append(child, 0x60, 0x00, 0x52, 0x60, 0x20, 0x60, 0x00, 0xf3)
 		c.Extra = append(c.Extra, VMAccount{Addr: createChild, Code: child})
 	}
-	derived := DerivedAddress(VMCallee, 1)
-	c.Note = fmt.Sprintf("create:%s call=%v value=%d", k.name, callFirst, value)
+	derived := DerivedAddress(factoryAddr, 1)
+	c.Note = fmt.Sprintf("create:%s call=%v value=%d nested=%v", k.name, callFirst, value, nested)
 	c.UsesExt = true
 	created := k.ok
 	rds := 0
 	if !k.ok {
 		rds = k.retLen
 	}
-	c.Expect = fmt.Sprintf(`{"derived":"%s","created":%v,"runtime":"%s","value":%d,"factory_balance":%d,"returndatasize":%d,"init":"%s","call_first":%v}`,
-		hex.EncodeToString(derived.Bytes()), created, k.runtime, value, map[bool]uint64{true: 100 - value, false: 100}[created], rds, k.name, callFirst)
+	storage := "[]"
+	if k.name == "okCtx" {
+		// the constructor runs as the new contract: ORIGIN is the account that sent the transaction, CALLER the factory
+		storage = fmt.Sprintf(`[["%064x","%064x"],["%064x","%064x"]]`, 1, new(big.Int).SetBytes(VMCaller.Bytes()), 2, new(big.Int).SetBytes(factoryAddr.Bytes()))
+	}
+	c.Expect = fmt.Sprintf(`{"derived":"%s","created":%v,"runtime":"%s","value":%d,"factory_balance":%d,"returndatasize":%d,"init":"%s","call_first":%v,"factory":"%s","nested":%v,"storage":%s}`,
+		hex.EncodeToString(derived.Bytes()), created, k.runtime, value, map[bool]uint64{true: 100 - value, false: 100}[created], rds, k.name, callFirst,
+		hex.EncodeToString(factoryAddr.Bytes()), nested, storage)
 	return c
 }
 
